@@ -91,6 +91,14 @@ func (s *crcSim) body() {
 	} else {
 		bld.Source("dtn://src/a").Destination("dtn://dst/b")
 	}
+	// report-to: the builder's default (the source), the null endpoint (common in practice; its scheme-specific part is
+	// an integer the parser does not interpret), or another endpoint
+	switch re := simk.NewRand(c.Seed, "report-to"); re.Intn(5) {
+	case 0, 1:
+		bld.ReportTo("dtn:none")
+	case 2:
+		bld.ReportTo("dtn://rep/x")
+	}
 	bld.CreationTimestampNow().Lifetime("1h")
 	if c.CfgB("hop") {
 		bld.HopCountBlock(r.Range(1, 200))
